@@ -19,6 +19,7 @@ import (
 	log "github.com/golang/glog"
 	"github.com/westerndigitalcorporation/blb/pkg/disk"
 	"github.com/westerndigitalcorporation/blb/pkg/raft/raft"
+	"github.com/westerndigitalcorporation/blb/pkg/verifhook"
 )
 
 const (
@@ -177,9 +178,11 @@ func (f *fsSnapshotMgr) cleanupSnapshots() {
 	// Remove all temporary snapshot files.
 	for _, file := range files {
 		if isValidSnapshotTempName(file) {
+			verifhook.At("raftfs.snap.remove.before", filepath.Join(f.homeDir, file))
 			if err := os.Remove(filepath.Join(f.homeDir, file)); err != nil {
 				log.Errorf("Failed to remove temporary snapshot file: %v", err)
 			}
+			verifhook.At("raftfs.snap.remove.after", filepath.Join(f.homeDir, file))
 		}
 	}
 	snapshots := f.getSnapshots()
@@ -189,9 +192,11 @@ func (f *fsSnapshotMgr) cleanupSnapshots() {
 
 	// Remove all snapshot files but keep the most recent "snapRetention".
 	for _, snapshot := range snapshots[:len(snapshots)-snapRetention] {
+		verifhook.At("raftfs.snap.remove.before", filepath.Join(f.homeDir, snapshot))
 		if err := os.Remove(filepath.Join(f.homeDir, snapshot)); err != nil {
 			log.Errorf("Failed to remove stale snapshot file: %v", err)
 		}
+		verifhook.At("raftfs.snap.remove.after", filepath.Join(f.homeDir, snapshot))
 	}
 }
 
@@ -272,10 +277,12 @@ func (w *snapshotFileWriter) Write(p []byte) (int, error) {
 // the home directory. The cached metadata is also updated.
 func (w *snapshotFileWriter) Commit() (err error) {
 	// Sync and close the temporary file.
+	verifhook.At("raftfs.snap.commit.begin", w.temp, w.snapFile)
 	if err = w.writer.Close(); nil != err {
 		log.Errorf("failed to close file: %s", err)
 		return err
 	}
+	verifhook.At("raftfs.snap.commit.closed", w.temp, w.snapFile)
 
 	// 'w.mgr.meta.LastIndex' stores the latest index of current "effective"
 	// snapshot file and "w.meta.LastIndex" stores the index of this temporary
@@ -292,6 +299,7 @@ func (w *snapshotFileWriter) Commit() (err error) {
 		return err
 	}
 
+	verifhook.At("raftfs.snap.commit.renamed", w.temp, w.snapFile)
 	// Update cached metadata.
 	w.mgr.lock.Lock()
 	w.mgr.meta = w.meta
@@ -300,6 +308,7 @@ func (w *snapshotFileWriter) Commit() (err error) {
 	log.Infof("snapshot committed: [LastTerm: %d, LastIndex: %d]", w.meta.LastTerm, w.meta.LastIndex)
 	// Cleanup unused snapshot files, if there're any.
 	w.mgr.cleanupSnapshots()
+	verifhook.At("raftfs.snap.commit.end", w.temp, w.snapFile)
 	return nil
 }
 
